@@ -24,8 +24,18 @@ typedef uint64_t C06_SAMPT;
 #endif
 #define C06_SAMP(p, i) (((const C06_SAMPT*)(p))[i])
 
+/* malloc of the sample buffer (stub, trusted): the same allocation, written as `sizeof(sample) * count` so that cbmc gives the object
+ * the element type the code accesses it with (one array operation per sample instead of one per byte: the byte-wise model of the
+ * 64-bit instance needs 40 M clauses). The size the code asks for must be a whole number of samples -- asserted. */
+static inline void* C06_malloc(size_t size) {
+  __CPROVER_assert(size % sizeof(C06_SAMPT) == 0, "buffer size is a whole number of samples");
+  return malloc(sizeof(C06_SAMPT) * (size / sizeof(C06_SAMPT)));
+}
+
 size_t g_P;        /* ghost pixel number y*w + x */
+#ifndef C06_SAVE_H
 size_t g_c;        /* ghost channel 0..2 (3 with alpha) of that pixel in memory */
+#endif
 C06_SAMPT g_v;     /* the sample of the FILE that the format assigns to channel g_c of pixel g_P */
 
 #define C06_D(alpha) (3 + (size_t)(alpha))             /* samples per pixel in memory */
@@ -70,8 +80,13 @@ __CPROVER_ensures(verif_exc == 0 ==> (self->width == (ssize_t)new_width && self-
 /* success: exactly the file's sample array was consumed */
 __CPROVER_ensures(verif_exc == 0 ==> g_fpos == new_width * new_height * C06_S(new_has_alpha) * (C06_CW / 8))
 /* success: the buffer is as large as class Image takes it to be (get_data_size()) */
-__CPROVER_ensures(verif_exc == 0 ==> __CPROVER_r_ok(self->data.raw, new_width * new_height * C06_D(new_has_alpha) * (C06_CW / 8)))
+__CPROVER_ensures(verif_exc == 0 ==> __CPROVER_is_fresh(self->data.raw, new_width * new_height * C06_D(new_has_alpha) * (C06_CW / 8)))
 /* success: every pixel has the value the format defines */
-__CPROVER_ensures(verif_exc == 0 ==> C06_PPM_DONE(self));
+__CPROVER_ensures(verif_exc == 0 ==> C06_PPM_DONE(self))
+#if !C06_GRAY
+/* colour files: byte k of the sample array is byte k of the buffer (ghost byte of the stream model) */
+__CPROVER_ensures((verif_exc == 0 && g_bk < new_width * new_height * C06_S(new_has_alpha) * (C06_CW / 8)) ==> ((const uint8_t*)self->data.raw)[g_bk] == g_bv)
+#endif
+;
 
 #endif
